@@ -2,15 +2,5 @@
 
 package lattice
 
-// Verification-only accessors for C20.
-
-// VerifC20EllLowerHalf returns constELL_LOWER_HALF as (hi, lo).
-func VerifC20EllLowerHalf() (int64, uint64) { return constELL_LOWER_HALF.hi, constELL_LOWER_HALF.lo }
-
-// VerifC20EllSquared returns ellSquared() as eight little-endian 64-bit words.
-func VerifC20EllSquared() [8]uint64 { return *ellSquared() }
-
-// VerifC20SmallConstants returns i512One, i128Zero (hi, lo), i128One (hi, lo).
-func VerifC20SmallConstants() (one512 [8]uint64, zeroHi int64, zeroLo uint64, oneHi int64, oneLo uint64) {
-	return *i512One, i128Zero.hi, i128Zero.lo, i128One.hi, i128One.lo
-}
+// VerifC20Reg: accessors looked up by name at run time; one small file per constant registers itself here.
+var VerifC20Reg = map[string]interface{}{}
